@@ -319,6 +319,12 @@ def scenarios_c14(r, tier):
     for g in growers:
         for rt in routes:
             out.append(mk_route(rt, g, []))
+    # several modules in one in-place invocation: a growing module after / between / before shrinking ones, as paths and as a directory
+    many = {'m1_shrinks.py': WITNESS, 'm2_grows.py': b'True if 0in x else False ;y=1e-5', 'm3_shrinks.py': b'def render_template(argument):\n    return argument * 2\n', 'm4_grows.py': b'EPSILON=1e-9',
+            'm5_same.py': b'a=1', 'm6_shrinks.py': b'import os\nimport sys\n'}
+    for order in (sorted(many), sorted(many, reverse=True), ['m2_grows.py', 'm1_shrinks.py', 'm4_grows.py', 'm3_shrinks.py']):
+        out.append({'paths': order, 'files': dict(many), 'flags': ['--in-place'], 'route': 'inplace'})
+    out.append({'paths': ['pkgdir'], 'files': {'pkgdir/' + k: v for k, v in many.items()}, 'flags': ['--in-place'], 'route': 'inplace'})
     for sb in ('#!/bin/sh', '#!/bin/sh\n', '#!/bin/sh\r\n', '#!x'):
         for rt in routes[:3]:
             out.append(mk_route(rt, sb.encode(), []))
@@ -357,7 +363,7 @@ def scenarios_c15(r, tier):
                 break
     # no failure: nested dirs, symlinks to a file and to a directory, several path arguments
     tree = {'p/a.py': good[0], 'p/b.txt': b'text  =  1', 'p/q/c.pyw': good[1], 'p/q/r/d.py': good[2], 'p/Makefile': b'all:\n\tpass\n',
-            'p/q/e.py.bak': b'k  =  1\n', 'p/a.py.tmp': b'tmp  =  1\n', 'p/a.py~': b'bk  =  1\n', 'p/a.pyi': b'x: int\n', 'p/a.py.orig': b'orig  =  1\n', 'p/.a.py.swp': b'swap', 'p/a.py.lock': b'',
+            'p/q/e.py.bak': b'k  =  1\n', 'p/a_tolerances.py': b'EPSILON=1e-9', 'p/q/b_grows.py': b'x=1 .real', 'p/q/r/c_grows.py': b'1if x else 2', 'p/a.py.tmp': b'tmp  =  1\n', 'p/a.py~': b'bk  =  1\n', 'p/a.pyi': b'x: int\n', 'p/a.py.orig': b'orig  =  1\n', 'p/.a.py.swp': b'swap', 'p/a.py.lock': b'',
             'p/q/c.pyw.tmp': b'tmp  =  2\n', 'p/q/c.pyw.new': b'new  =  2\n', 'p/q/tmp': b'plain', 'p/a.tmp': b'a tmp', 'p/a': b'no extension  =  1\n', 'x.py.tmp': b'tmp  =  3\n', 'x.tmp': b't', 'p/a.py.d/keep.txt': b'dir sibling', 'p/legacy.py': COOKIE_SRC, 'p/q/legacy_window.pyw': COOKIE2_SRC, 'p/q/r/utf8.py': good[6], 'p/bom.py': good[7], 'x.py': good[3], 'outside/z.py': good[0], 'p/ln.py': ('link', '../outside/z.py'), 'p/lnd': ('link', '../outside')}
     out.append({'paths': ['p', 'x.py'], 'files': tree, 'flags': ['--in-place']})
     out.append({'paths': ['p'], 'files': tree, 'flags': ['--in-place', '--rename-globals']})
